@@ -224,6 +224,74 @@ def new_value(entry, gen):
     return v
 
 
+def codec_override_after_use():
+    """`Serialization.codecs` is a documented extension point: overriding a
+    codec takes effect for the next encode, also for type names the
+    serializer has already seen."""
+    import gtirb as g
+    import gtirb.serialization as ser_mod
+
+    out = []
+    glob = g.AuxData.serializer
+    stock = glob.codecs["string"]
+
+    class Latin1(ser_mod.Codec):
+        @staticmethod
+        def decode(raw_bytes, *, serialization=None, subtypes=(),
+                   get_by_uuid=None):
+            n = int.from_bytes(raw_bytes.read(8), "little")
+            return raw_bytes.read(n).decode("latin-1")
+
+        @staticmethod
+        def encode(out_, item, *, serialization=None, subtypes=()):
+            b = item.encode("latin-1")
+            out_.write(len(b).to_bytes(8, "little"))
+            out_.write(b)
+
+    try:
+        ir = g.IR(uuid=U(300))
+        ir.aux_data["names"] = g.AuxData(["caf\u00e9"], "sequence<string>")
+        buf = io.BytesIO()
+        ir.save_protobuf_file(buf)                      # type seen (encode)
+        ir2 = g.IR.load_protobuf_file(io.BytesIO(buf.getvalue()))
+        ir2.aux_data["names"].data                      # type seen (decode)
+        glob.codecs["string"] = Latin1
+        ir2.aux_data["names"].data.append("na\u00efve")
+        buf2 = io.BytesIO()
+        ir2.save_protobuf_file(buf2)
+        from gtirb.proto import IR_pb2
+
+        m = IR_pb2.IR()
+        m.ParseFromString(buf2.getvalue()[8:])
+        got = bytes(m.aux_data["names"].data)
+        want = (u64(2) + u64(4) + "caf\u00e9".encode("latin-1")
+                + u64(5) + "na\u00efve".encode("latin-1"))
+        if got != want:
+            out.append(("C14/edited-table-written-with-a-replaced-codec",
+                        "codec for 'string' overridden after the type was "
+                        "used: wrote %s, current codec gives %s"
+                        % (got.hex(), want.hex())))
+        glob.codecs["string"] = stock
+        ir2.aux_data["names"].data.append("x")
+        buf3 = io.BytesIO()
+        ir2.save_protobuf_file(buf3)
+        m.ParseFromString(buf3.getvalue()[8:])
+        want3 = R.encode(["caf\u00e9", "na\u00efve", "x"],
+                         R.parse("sequence<string>"))
+        if bytes(m.aux_data["names"].data) != want3:
+            out.append(("C14/edited-table-written-with-a-replaced-codec",
+                        "stock codec restored, table still written with the "
+                        "override"))
+    except Exception as e:  # noqa
+        import traceback
+
+        out.append(("C14/codec-override-raises:%s" % type(e).__name__,
+                    traceback.format_exc()[-300:]))
+    finally:
+        glob.codecs["string"] = stock
+    return out
+
+
 def run_history(entry, where, history):
     """Returns list of (signature, detail).  history: tuple of actions, one
     per generation."""
@@ -446,6 +514,9 @@ def run(ctx):
     for sig, (detail, name, where, hist) in sorted(best.items()):
         ctx.violation(sig, {"scenario": "auxtables", "table": name,
                             "where": where, "history": hist, "detail": detail})
+    for sig, detail in codec_override_after_use():
+        ctx.violation(sig, {"scenario": "auxtables", "table": "<override>",
+                            "where": "ir", "history": [], "detail": detail})
     cov = {
         "states": len(cat) * 2,
         "transitions": n,
@@ -470,6 +541,13 @@ def run(ctx):
 
 
 def replay(doc):
+    if doc["table"] == "<override>":
+        v = codec_override_after_use()
+        for s_, d in v:
+            print(s_, "--", d)
+        hit = any(s_ == doc["signature"] for s_, _ in v)
+        print("reproduced" if hit else "NOT reproduced")
+        return 1 if hit else 0
     entry = [e for e in catalogue() if e["name"] == doc["table"]][0]
     v = run_history(entry, doc["where"], tuple(doc["history"]))
     for s, d in v:
